@@ -281,9 +281,207 @@ def a_growSk(T):
     return '\n' + tr.block(list(f.body), dict(spec.env), '  ')
 
 
+
+# ------------------------------------------------------------------------------------------------ 2. progress queries
+def _is_star(e): return isinstance(e, ast.Constant) and e.value == '*'
+
+
+class ProgTr(Tr2):
+    """expressions over abstract directory queries"""
+
+    def __init__(self, env, num, trees, find_):
+        super().__init__(env, num)
+        self.trees, self.find = trees, find_
+
+    def sub(self, env):
+        return ProgTr(env, self.num, self.trees, self.find)
+
+    def expr(self, e):
+        hit = self.lookup(e)
+        if hit is not None and hit[1] not in ('ast', 'fundef'):
+            return hit
+        if isinstance(e, ast.Call) and not e.keywords:
+            f = _u(e.func)
+            if f == 'os.path.exists' and len(e.args) == 1:
+                k = classify_path(e.args[0], self, lambda n: False)
+                return ('infoExists' if k is not None and k[0] == 'info' else 'otherExists'), 'bool'
+            if f == 'len' and len(e.args) == 1 and isinstance(e.args[0], ast.Call) and _u(e.args[0].func) == 'glob.glob' \
+                    and len(e.args[0].args) == 1 and not e.args[0].keywords:
+                k = classify_path(e.args[0].args[0], self, _is_star)
+                return {'batch': 'nBatchFiles', 'result': 'nResultFiles'}.get(k[0] if k else None, 'nOtherFiles'), 'num'
+            if f == 'os.path.isfile' and len(e.args) == 1:
+                k = classify_path(e.args[0], self, lambda n: True)
+                if k is None or k[0] not in ('batch', 'result'): raise Untranslatable('isfile of ' + _u(e.args[0])[:60])
+                t, ty = self.expr(k[1])
+                if ty != 'num': raise Untranslatable('file index of type ' + str(ty))
+                return f'({"isBatchFile" if k[0] == "batch" else "isResultFile"} {t})', 'bool'
+            if f == 'self.is_prepared' and not e.args:
+                m = self.find(self.trees['cropping'], ['Crop', 'is_prepared'])
+                body = [b for b in m.body if not (isinstance(b, ast.Expr) and isinstance(b.value, ast.Constant))]
+                if len(body) != 1 or not isinstance(body[0], ast.Return) or body[0].value is None:
+                    raise Untranslatable('is_prepared is not a single return')
+                return self.expr(body[0].value)
+            if f == 'range' and len(e.args) in (1, 2):
+                parts = [self.expr(a) for a in e.args]
+                if any(ty != 'num' for _, ty in parts): raise Untranslatable('range of non-numbers')
+                lo, hi = ('(0 : Int)', parts[0][0]) if len(parts) == 1 else (parts[0][0], parts[1][0])
+                return f'(rangeInt {lo} {hi})', 'ilist'
+            if f in ('tuple', 'list') and len(e.args) == 1:
+                t, ty = self.expr(e.args[0])
+                if ty == 'ilist': return t, ty
+                raise Untranslatable(f + ' of ' + str(ty))
+            if f == 'filter' and len(e.args) == 2:
+                fn = e.args[0]
+                if isinstance(fn, ast.Name) and self.env.get(fn.id, (0, 0))[1] == 'fundef':
+                    d = self.env[fn.id][0]
+                    body = [b for b in d.body if not (isinstance(b, ast.Expr) and isinstance(b.value, ast.Constant))]
+                    if len(body) != 1 or not isinstance(body[0], ast.Return) or body[0].value is None or len(d.args.args) != 1 \
+                            or d.args.defaults or d.args.vararg or d.args.kwarg or d.args.kwonlyargs:
+                        raise Untranslatable('filter predicate shape')
+                    var, pe = d.args.args[0].arg, body[0].value
+                elif isinstance(fn, ast.Lambda) and len(fn.args.args) == 1:
+                    var, pe = fn.args.args[0].arg, fn.body
+                else:
+                    raise Untranslatable('filter predicate')
+                lst, lty = self.expr(e.args[1])
+                if lty != 'ilist': raise Untranslatable('filter over ' + str(lty))
+                env2 = dict(self.env); env2[var] = (var, 'num')
+                return f'({lst}.filter (fun {var} => {self.sub(env2).truthy(pe)}))', 'ilist'
+        return super().expr(e)
+
+
+class ProgFn(FnTr):
+    def tr(self, env):
+        return ProgTr(env, self.spec.num, self.trees, self.find)
+
+    def ok(self, env, ret=None):
+        # a result field that was unwrapped for the returned expression is handed back as the optional it is
+        env2 = dict(env)
+        for k in self.spec.result:
+            want = self.spec.env[k][1]
+            if env[k][1] != want:
+                if (want, env[k][1]) == ('onum', 'num'): env2[k] = (f'(some {env[k][0]} : Option Int)', 'onum')
+                else: raise Untranslatable('result field changed type: ' + k)
+        return super().ok(env2, ret)
+
+    def _hoist(self, s):
+        """a property read inside statement `s`: (statements the property runs first, `s` with the read replaced by what the
+        property returns); properties of the crop run `calc_progress` and hand back a private field"""
+        exprs = [s.test] if isinstance(s, ast.If) else [s]
+        for root in exprs:
+            for n in ast.walk(root):
+                if isinstance(n, ast.Attribute) and _u(n) in self.spec.props and isinstance(n.ctx, ast.Load):
+                    key = _u(n)
+                    m = self.find(self.trees['cropping'], self.spec.props[key])
+                    body = [b for b in m.body if not (isinstance(b, ast.Expr) and isinstance(b.value, ast.Constant))]
+                    if not body or not isinstance(body[-1], ast.Return) or body[-1].value is None or \
+                            any(isinstance(x, ast.Return) for b in body[:-1] for x in ast.walk(b)):
+                        raise Untranslatable('property shape: ' + key)
+                    ret = body[-1].value
+
+                    class R(ast.NodeTransformer):
+                        def visit_Attribute(self, node):
+                            return copy.deepcopy(ret) if _u(node) == key else self.generic_visit(node)
+                    s2 = copy.deepcopy(s)
+                    if isinstance(s2, ast.If): s2.test = R().visit(s2.test)
+                    else: s2 = R().visit(s2)
+                    return [copy.deepcopy(b) for b in body[:-1]], ast.fix_missing_locations(s2)
+        return None
+
+    def block(self, stmts, env, ind):
+        if stmts:
+            s, rest = stmts[0], stmts[1:]
+            if isinstance(s, ast.FunctionDef):
+                e2 = dict(env); e2[s.name] = (s, 'fundef')
+                return self.block(rest, e2, ind)
+            if isinstance(s, (ast.Return, ast.Assign, ast.AugAssign, ast.If)) or (isinstance(s, ast.Expr) and isinstance(s.value, ast.Call)):
+                h = self._hoist(s)
+                if h is not None:
+                    return self.block(h[0] + [h[1]] + rest, env, ind)
+        return super().block(stmts, env, ind)
+
+
+def _sync_info(call, tr, env):
+    """`self._sync_info_from_disk()`: the batch settings become what the info file says"""
+    if call.args or call.keywords: raise Untranslatable('_sync_info_from_disk with arguments')
+    return [('self.batchsize', 'infoBs', 'onum'), ('self.num_batches', 'infoNb', 'onum'), ('self._batch_remainder', 'infoRem', 'onum')]
+
+
+_PROG_ENV = {'self.batchsize': onum('batchsize'), 'self.num_batches': onum('numBatches'), 'self._batch_remainder': onum('remainder'),
+             'self._num_sown_batches': num('numSown'), 'self._num_results': num('numResults')}
+_PROG_STATE = ['self.batchsize', 'self.num_batches', 'self._batch_remainder', 'self._num_sown_batches', 'self._num_results']
+_PROG_PROPS = {'self.num_sown_batches': ['Crop', 'num_sown_batches'], 'self.num_results': ['Crop', 'num_results']}
+
+
+def _prog(meth, returns, result=_PROG_STATE):
+    def a(T):
+        spec = Spec('cropping', ['Crop', meth], _PROG_ENV, result=result, returns=returns,
+                    inline={'self.calc_progress': ('cropping', ['Crop', 'calc_progress'])},
+                    effects={'self._sync_info_from_disk': _sync_info})
+        spec.props = _PROG_PROPS
+        cls = find(T['cropping'], ['Crop'])
+        fs = [n for n in cls.body if isinstance(n, ast.FunctionDef) and n.name == meth]
+        f = one(fs, 'Crop.' + meth)
+        tr = ProgFn(spec, T, find)
+        return '\n' + tr.block(list(f.body), dict(spec.env), '  ')
+    return a
+
+
+def _body(f):
+    return [b for b in f.body if not (isinstance(b, ast.Expr) and isinstance(b.value, ast.Constant))]
+
+
+def a_cropGrowIds(T):
+    """`Crop.grow(batch_ids)`: which batch numbers are handed to the module-level `grow`, with this crop, in which order"""
+    f = find(T['cropping'], ['Crop', 'grow'])
+    body = _body(f)
+    wrap = False
+    if len(body) == 2 and isinstance(body[0], ast.If):
+        i = body[0]
+        if _u(i.test) == 'isinstance(batch_ids, int)' and not i.orelse and len(i.body) == 1 and _u(i.body[0]) == 'batch_ids = (batch_ids,)':
+            wrap = True; body = body[1:]
+    if len(body) != 1 or not (isinstance(body[0], ast.Expr) and isinstance(body[0].value, ast.Call)):
+        raise Untranslatable('Crop.grow shape')
+    c = body[0].value
+    if _u(c.func) != 'combo_runner_core' or [_u(x) for x in c.args] != ['grow']:
+        raise Untranslatable('Crop.grow does not drive the module-level grow through combo_runner_core')
+    kw = {k.arg: k.value for k in c.keywords if k.arg}
+    if _u(kw.get('combos', ast.Constant(None))) != "(('batch_number', batch_ids),)":
+        raise Untranslatable('combos of Crop.grow')
+    cs = kw.get('constants')
+    if not isinstance(cs, ast.Dict) or "'crop': self" not in [f'{_u(k)}: {_u(v)}' for k, v in zip(cs.keys, cs.values)]:
+        raise Untranslatable('constants of Crop.grow')
+    return '(if idsIsInt then [single] else many)' if wrap else 'many'
+
+
+def a_growMissingIds(T):
+    """`Crop.grow_missing()`: the ids handed to `Crop.grow`"""
+    f = find(T['cropping'], ['Crop', 'grow_missing'])
+    body = _body(f)
+    if len(body) != 1 or not (isinstance(body[0], ast.Expr) and isinstance(body[0].value, ast.Call)): raise Untranslatable('grow_missing shape')
+    c = body[0].value
+    if _u(c.func) != 'self.grow': raise Untranslatable('grow_missing does not call self.grow')
+    ids = c.args[0] if c.args else {k.arg: k.value for k in c.keywords}.get('batch_ids')
+    if ids is None or len(c.args) > 1: raise Untranslatable('ids of grow_missing')
+    if _u(ids) == 'self.missing_results()': return 'missing'
+    raise Untranslatable('grow_missing grows ' + _u(ids)[:60])
+
+
+_Q = ('(infoExists otherExists : Bool) (infoBs infoNb infoRem : Option Int) (nBatchFiles nResultFiles nOtherFiles : Int) '
+      '(isResultFile isBatchFile : Int → Bool) (batchsize numBatches remainder : Option Int) (numSown numResults : Int)')
+_ST = 'Option Int × Option Int × Option Int × Int × Int'
+
 _GSK = ('(fails : GEff → Bool) (cropIsNone cwdNotCrop fnIsNone : Bool) (n : Nat) (numWorkers : Option Int) '
         '(checkMpi ompiSet : Bool) (ompiRank : Int) (pmiSet : Bool) (pmiRank : Int) (trace : List GEff) : List GEff × Option PyErr')
 
 ANCHORS = [
     ('growSk', _GSK, a_growSk),
+    ('cropIsPrepared', _Q + ' : Except PyErr Bool', _prog('is_prepared', 'bool', result=[])),
+    ('cropCalcProgress', _Q + f' : Except PyErr ({_ST})', _prog('calc_progress', None)),
+    ('cropIsReadyToReap', _Q + f' : Except PyErr (Bool × {_ST})', _prog('is_ready_to_reap', 'bool')),
+    ('cropMissingResults', _Q + f' : Except PyErr (List Int × {_ST})', _prog('missing_results', 'ilist')),
+    ('cropNumSownBatches', _Q + f' : Except PyErr (Int × {_ST})', _prog('num_sown_batches', 'num')),
+    ('cropNumResults', _Q + f' : Except PyErr (Int × {_ST})', _prog('num_results', 'num')),
+    ('cropGrowIds', '(idsIsInt : Bool) (single : Int) (many : List Int) : List Int', a_cropGrowIds),
+    ('growMissingIds', '(missing : List Int) : List Int', a_growMissingIds),
 ]
